@@ -408,6 +408,26 @@ def rule_decoder_agreement(ctx, rep, rid: str) -> None:
                 if mem:
                     enc16.add(mem)
                     with_arg.add(mem)
+    # the encoder itself: a branch of it that writes (low, high) names its opcodes in its condition, and an opcode the
+    # encoder substitutes for the one it was given (a wide form chosen by the size of the operand) is emitted too
+    for m in comp.methods.values():
+        if m.name not in two_byte_helpers or isinstance(m.node, ast.Lambda):
+            continue
+        for br in m.own_nodes():
+            if not isinstance(br, ast.If):
+                continue
+            writes_high = any(isinstance(x, ast.BinOp) and isinstance(x.op, ast.RShift) and isinstance(x.right, ast.Constant) and x.right.value == 8 for b in br.body for x in ast.walk(b) if not isinstance(b, ast.If) or True)
+            direct = any(isinstance(x, ast.BinOp) and isinstance(x.op, ast.RShift) for b in br.body if not isinstance(b, ast.If) for x in ast.walk(b))
+            if writes_high and direct:
+                for c in ast.walk(br.test):
+                    if isinstance(c, ast.Compare) and len(c.ops) == 1 and isinstance(c.ops[0], ast.Eq):
+                        mem = opcode_member(c.comparators[0]) or opcode_member(c.left)
+                        if mem:
+                            enc16.add(mem)
+                            with_arg.add(mem)
+        for a in m.own_nodes():
+            if isinstance(a, ast.Assign) and len(a.targets) == 1 and isinstance(a.targets[0], ast.Name) and a.targets[0].id in ("opcode", "op") and opcode_member(a.value):
+                with_arg.add(opcode_member(a.value))
     if not enc16:
         raise AnalysisError("the compiler's 16-bit operand set was not found (neither a table consulted by _emit nor a two-byte emit helper)")
     enc8 = with_arg - enc16
